@@ -37,7 +37,7 @@ PROPS["C14"] = {
     "level_text": 'All from_ranges/addition calls over a 5-point grid (including empty, inverted, nested, adjacent ranges) plus random minute-granular operation sequences are compared minute by minute with a last-writer-wins array; structural invariants are asserted on the live Schedule. Exploration, complete within the grid scope.',
     "rule": "exhaustive over the 5-point grid {00:00,06:00,09:30,14:00,24:00} (all 25 end-point pairs incl. empty and inverted): "
             "every from_ranges call with <= 3 ranges x 3 kinds, every a.addition(b) with a,b from <= 2 ranges x 3x3 kinds "
-            "(thorough: three-operand additions over the 10 proper ranges); seeded random sequences of <= 8 operations with "
+            "(thorough: three-operand additions over the 10 proper ranges); a SIZE LADDER of 552 sequences with K = 1..64, 96, 128, 200, 360, 720 ranges in one from_ranges call (disjoint, touching, staggered overlaps in shuffled order) and K successive additions (nested with alternating kinds, pairs of ranges, many-range operand then whole-day operand and the reverse); seeded random sequences of <= 8 operations with "
             "<= 6 minute-granular ranges each; generated schedule! invocations. Oracle: a 1440-entry array painted in the same "
             "order; structure read from the live Schedule through hook verif_ranges(); iteration checked as a tiling. "
             "Non-trivial = at least two non-empty ranges involved; distinct by construction (enumeration) or by hash (random).",
